@@ -51,6 +51,26 @@ CLAIMED = {
             "contracts, rule ALL-VISITED for completed for-loops. Bounded stand-in (not counted as proved): version(name)==v on an "
             "enumerated pointer grammar. Table.__init__/create_table/load_table level obligations are under C18.",
             "DESIGN.md 4/C10"),
+    "C05": ("Proof of the sequential collector: _normalize_path maps both recorded spellings of every canonical name to itself for "
+            "EVERY table-location string (NORM-AGREE) and never returns a leading slash; every delete issued by _gc_prefix is for the "
+            "listed file under examination, whose normal form is outside the reachable/protected set and whose mtime is older than the "
+            "grace period (DELETE-SAFE), and such files are in fact deleted (DELETE-LIVE); collect hands _gc_prefix sets that contain "
+            "the normal forms of the manifest list, manifests and data files of EVERY retained snapshot (witness chain through five "
+            "loops with inductive invariants), united with the in-flight protection, with one grace period; marker handling keeps "
+            "fresh/un-stat-able/undeletable markers protecting. Histories and location spellings are covered by the universally "
+            "quantified table_path and by invariant preservation, not by enumeration.",
+            "Trusted: T-store actions, T-codec manifest readers, NORM treated as the proved contract of _normalize_path inside the "
+            "other units, rule ALL-VISITED, real-valued time arithmetic. Symlinked roots are covered through the listing contract "
+            "(names relative to the canonical root, C17). Transaction-side marker ordering (PROTECT) is part of C06/C04.",
+            "DESIGN.md 4/C05"),
+    "C07": ("Proof, with a fault edge on every storage call and reader of a collection run: any failure while computing reachability "
+            "(metadata read, exists, manifest-list or manifest read or missing file, for every retained snapshot) makes collect raise "
+            "before anything is deleted or swept; a failing listing raises GarbageCollectionAborted; a listing with an escaping entry "
+            "raises with no file of that listing deleted; a marker that cannot be listed/read raises, one that cannot be stat'ed or "
+            "deleted keeps protecting. Single faults exhaustively, at every call site, for unbounded listings and snapshot counts.",
+            "Trusted: T-store fault model (an action raises before its effect), T-codec readers raise on bytes they cannot parse. "
+            "Four defects found by these obligations were repaired in /repo (688103c, dcaf38a) - see known_findings.json.",
+            "DESIGN.md 4/C07"),
 }
 
 NA_REASON = {
